@@ -78,6 +78,10 @@ def block(ctx, e, base, rv, v_e):
         return [(base + 1, [("let", ("var", "A$"), e, False), ("let", ("var", rv + "$"), ("var", "A$"), False)])]
     if ctx == "assign_s":
         return [(base + 1, [("let", ("var", rv + "$"), e, False)])]
+    if ctx == "assign_arr_s":
+        # the same through a string array element (a different statement class in the tool)
+        return [(base + 1, [("let", ("arr", "S$", [X.num(base // 100 % 9)]), e, False)]),
+                (base + 2, [("let", ("var", rv + "$"), ("arr", "S$", [X.num(base // 100 % 9)]), False)])]
     if ctx == "if_else":
         return [(base + 1, [("if", e, ("stmts", [("let", R, X.num(1), False)]), [], ("stmts", [("let", R, X.num(2), False)]))])]
     if ctx == "if_noelse":
@@ -290,7 +294,9 @@ def _run_case(case):
     obs = {"key": key, "counters": {"cases": 1}, "viols": [], "sets": {"contexts": [ctx]}}
     # oracle self-check: rendering re-parses (independent precedence parser) to the abstract tree
     try:
-        if exprparse.normal(exprparse.parse(render_expr(e))) != exprparse.normal(e):
+        if e[0] == "ostr":
+            pass        # an unterminated constant is a whole right-hand side, not an expression the FRMEVL parser handles
+        elif exprparse.normal(exprparse.parse(render_expr(e))) != exprparse.normal(e):
             obs["counters"]["oracle_selfcheck_failures"] = 1
             obs["nontrivial"] = False
             return obs
@@ -306,7 +312,7 @@ def _run_case(case):
         obs["counters"]["valuations_compared"] = r["compared"]
     if "emitted" in r:
         obs["counters"]["b09_runs"] = 1
-    taints = X.taint(e)
+    taints = X.taint(e) if e[0] != "ostr" else set()
     ftaints = fn_taints(e)
     if not taints and not ftaints and not X.has_int_division(e):
         obs["counters"]["cases_untainted"] = 1
@@ -519,6 +525,12 @@ def cases(tier, seed):
         for ctx in STR_CONTEXTS:
             for place in PLACES:
                 yield {"ctx": ctx + "@" + place, "e": e}
+    # 3d. string constants without their closing quote (legal at the end of a line), to scalars and to array elements
+    for t in ("HELLO", "X", "A B ", "", "TWO  ", "Q:R,S"):
+        for ctx in ("assign_s", "assign_arr_s", "assign_s@late", "assign_arr_s@jump"):
+            yield {"ctx": ctx, "e": ("ostr", t)}
+    for e in [("bin", "+", ("var", "A$"), ("str", "!")), ("fn", "LEFT$", [("var", "B$"), X.num(1)]), ("str", "Z")]:
+        yield {"ctx": "assign_arr_s", "e": e}
     # 4. built-in functions on every operand kind, nested two deep
     num_ops = [("var", "A"), X.num(2.5), ("un", "-", ("var", "B")), ("bin", "-", ("var", "A"), ("var", "B")),
                ("par", ("bin", "*", ("var", "C"), ("var", "D"))), ("arr", "X", [X.num(3)]), ("hex", 255, "FF")]
